@@ -236,23 +236,65 @@ theorem txExpire_RI (cfg : Cfg) (b k ttl : Nat) : Rel (RI cfg.timeout) (txExpire
 
 theorem emit_RI (T : Nat) (r : Reply) : Rel (RI T) (emit r) := Rel.modW _ fun _ h => h
 
-theorem bodyStep_RI (cfg : Cfg) (c : BodyCmd) : Rel (RI cfg.timeout) (bodyStep cfg c) := by
-  cases c <;> unfold bodyStep <;> simp only [bind_eq]
-  · exact Rel.bind (RI.pre _) (txSet_RI _ _ _ _ _) fun _ => emit_RI _ _
-  · exact Rel.bind (RI.pre _) (txIncr_RI _ _ _ _) fun _ => emit_RI _ _
-  · exact Rel.bind (RI.pre _) (txGet_RI _ _ _) fun _ => emit_RI _ _
-  · exact Rel.bind (RI.pre _) (txDelete_RI _ _ _) fun _ => emit_RI _ _
-  · exact adv_RI _ _
-  · exact Rel.throw (RI.pre _) _
-  · exact Rel.bind (RI.pre _) (txSetMany_RI _ _ _ _) fun _ => emit_RI _ _
-  · exact Rel.bind (RI.pre _) (txDelMany_RI _ _ _) fun _ => emit_RI _ _
-  · exact Rel.bind (RI.pre _) (txExpire_RI _ _ _ _) fun _ => emit_RI _ _
-  · exact Rel.bind (RI.pre _) (txSetIf_RI _ _ _ _ _ _) fun _ => emit_RI _ _
+/-- bumping / taking back the `_inner` of a context object has nothing to do with the locks -/
+theorem LockInv_putObj (T : Nat) (w : FWorld) (i : Nat) (v : CtxObj) (h : LockInv T w) : LockInv T (putObj w i v) := h
 
-theorem runBody_RI (cfg : Cfg) (body : List BodyCmd) : Rel (RI cfg.timeout) (runBody cfg body) := by
-  induction body with
-  | nil => exact Rel.pure (RI.pre _) _
-  | cons c rest ih => exact Rel.bind (RI.pre _) (bodyStep_RI cfg c) fun _ => ih
+/-- a nested block inside the transaction keeps the lock bookkeeping: its `__aexit__` only takes its `_inner` back -/
+theorem blockOn_RI (cfg : Cfg) (o : Option Nat) {inner : M Unit} (hin : Rel (RI cfg.timeout) inner) (hk : Rel RIn inner) :
+    Rel (RI cfg.timeout) (blockOn cfg o inner) := by
+  intro w hI
+  have hs : w.ctx.isSome = true := by obtain ⟨tx, hc, _⟩ := hI; rw [hc]; rfl
+  obtain ⟨t, ht⟩ := Option.isSome_iff_exists.1 hs
+  unfold blockOn
+  cases o with
+  | none =>
+    have he : enterOn none w = (true, w) := by simp [enterOn, ht]
+    rw [he]
+    have h1 := hin w hI
+    generalize inner w = p at h1
+    obtain ⟨r, w2⟩ := p
+    cases r <;> simp only [exitOn, if_true] <;> exact h1
+  | some i =>
+    have he : enterOn (some i) w = (true, putObj w i { objOf w i with inner := (objOf w i).inner + 1 }) := by
+      simp [enterOn, ht]
+    rw [he]
+    generalize hw1 : putObj w i { objOf w i with inner := (objOf w i).inner + 1 } = w1
+    have hI1 : LockInv cfg.timeout w1 := by rw [← hw1]; exact LockInv_putObj _ _ _ _ hI
+    have ho1 : objOf w1 i = { objOf w i with inner := (objOf w i).inner + 1 } := by
+      rw [← hw1, objOf_putObj, if_pos rfl]
+    have hI2 := hin w1 hI1
+    obtain ⟨_, ho2, _⟩ := hk w1 (by obtain ⟨tx, hc, _⟩ := hI1; rw [hc]; rfl)
+    have hexit : ∀ exc, exitOn cfg (some i) true exc (inner w1).2 =
+        (.ok (), putObj (inner w1).2 i { objOf (inner w1).2 i with inner := (objOf (inner w1).2 i).inner - 1 }) := by
+      intro exc
+      have : (objOf (inner w1).2 i).inner ≠ 0 := by rw [ho2 i, ho1]; simp
+      simp only [exitOn, this, ne_eq, not_false_eq_true, if_true]
+    have hfin := LockInv_putObj cfg.timeout (inner w1).2 i
+      { objOf (inner w1).2 i with inner := (objOf (inner w1).2 i).inner - 1 } hI2
+    generalize hp : inner w1 = p at hexit hfin
+    obtain ⟨r, w2⟩ := p
+    cases r with
+    | ok a => simp only; rw [hexit false]; exact hfin
+    | err e => simp only; rw [hexit true]; exact hfin
+
+mutual
+theorem bodyStep_RI (cfg : Cfg) : (c : BodyCmd) → Rel (RI cfg.timeout) (bodyStep cfg c)
+  | .set .. => by unfold bodyStep; exact Rel.bind (RI.pre _) (txSet_RI _ _ _ _ _) fun _ => emit_RI _ _
+  | .incr .. => by unfold bodyStep; exact Rel.bind (RI.pre _) (txIncr_RI _ _ _ _) fun _ => emit_RI _ _
+  | .get .. => by unfold bodyStep; exact Rel.bind (RI.pre _) (txGet_RI _ _ _) fun _ => emit_RI _ _
+  | .delete .. => by unfold bodyStep; exact Rel.bind (RI.pre _) (txDelete_RI _ _ _) fun _ => emit_RI _ _
+  | .adv _ => by unfold bodyStep; exact adv_RI _ _
+  | .raise => by unfold bodyStep; exact Rel.throw (RI.pre _) _
+  | .setMany .. => by unfold bodyStep; exact Rel.bind (RI.pre _) (txSetMany_RI _ _ _ _) fun _ => emit_RI _ _
+  | .delMany .. => by unfold bodyStep; exact Rel.bind (RI.pre _) (txDelMany_RI _ _ _) fun _ => emit_RI _ _
+  | .expire .. => by unfold bodyStep; exact Rel.bind (RI.pre _) (txExpire_RI _ _ _ _) fun _ => emit_RI _ _
+  | .setIf .. => by unfold bodyStep; exact Rel.bind (RI.pre _) (txSetIf_RI _ _ _ _ _ _) fun _ => emit_RI _ _
+  | .block o body => by unfold bodyStep; exact blockOn_RI cfg o (runBody_RI cfg body) (runBody_RIn cfg body)
+
+theorem runBody_RI (cfg : Cfg) : (body : List BodyCmd) → Rel (RI cfg.timeout) (runBody cfg body)
+  | [] => by unfold runBody; exact Rel.pure (RI.pre _) _
+  | c :: rest => by unfold runBody; exact Rel.bind (RI.pre _) (bodyStep_RI cfg c) fun _ => runBody_RI cfg rest
+end
 
 /-! ### on the way out -/
 
@@ -284,6 +326,10 @@ theorem backendCmd_RExit (cfg : Cfg) (b : Nat) (c : BCmd) (hc : c.noLock) : Rel 
     · exact logged_locks_sub _ _ _ _ _ _ (applyCmd_locks_shrink b c (logged cfg b c w) hc k e h)
   · rw [backendCmd_fail cfg b c w hf]
     exact ⟨by simp [logged], fun ev h => by simp [logged, h], rfl, fun _ _ h => logged_locks_sub _ _ _ _ _ _ h⟩
+
+theorem closeOn_RExit (o : Option Nat) : Rel RExit (closeOn o) := by
+  refine Rel.modW _ fun w => ?_
+  cases o <;> exact RExit.pre.refl _
 
 theorem gatherUnlock_RExit (cfg : Cfg) (b : Nat) (ls : List Nat) : Rel RExit (gatherUnlock cfg b ls) := by
   induction ls with
